@@ -276,7 +276,7 @@ func TestBoundedC02RefMap(t *testing.T) {
 		storage string
 		shadow  bool
 		cache   int
-		depth   int // exhaustive sequence length
+		depth   int  // exhaustive sequence length
 		delayed bool // writes go to the delayed write cache of the interface first
 	}
 	var cfgs []cfg
